@@ -328,6 +328,13 @@ func genProgram(rng *rand.Rand) program {
 	return p
 }
 
+func tailStrings(s []string, n int) []string {
+	if len(s) > n {
+		return s[len(s)-n:]
+	}
+	return s
+}
+
 func TestCheck(t *testing.T) {
 	e := ev.New("C06", "model_checking")
 	defer func() {
@@ -403,6 +410,23 @@ func TestCheck(t *testing.T) {
 		for j := 0; j < nSchedPer; j++ {
 			run(p, rng.Int63())
 		}
+	}
+	// free-running rounds (free_test.go), judged separately
+	fb := &tv.Batch{}
+	nFree, stranded := ev.Pick(400, 4000), 0
+	for i := 0; i < nFree && stranded < 3; i++ {
+		if !freeRun(fb, i, 60) {
+			stranded++
+		}
+	}
+	fmissing, fres := tv.ValidateDoneChunked(tlc.Opts{Dir: "Processor", Module: "TraceProc", Config: "TraceProc.cfg", Workers: 16, Timeout: ev.Pick(6*time.Minute, 30*time.Minute), HeapMB: 8000}, fb)
+	fmt.Printf("TLC free-running validation: ok=%v traces=%d events=%d rejected=%d wall=%s %s\n", fres.OK, fb.Len(), fb.Lines(), len(fmissing), fres.Wall.Round(time.Millisecond), fres.What)
+	if !fres.OK {
+		e.Inconclusive("free-running trace validation did not run: " + fres.What + fres.Tail(1500))
+	}
+	e.Set("free_running_enqueues", int64(fb.Len()*60))
+	for _, i := range fmissing {
+		e.Violation("stranded:due-item-not-executed-at-quiescence:free-running", "free-running trace of the real Processor is not a behaviour of ProcContract (an Enqueue racing the loop's exit)", tv.M{"family": "free-running back-to-back Enqueues", "trace_tail": tailStrings(fb.TraceStrings(i), 12)})
 	}
 	fmt.Printf("executed %d schedules (%d events), %d could not be driven to the end\n", b.Len(), b.Lines(), inconcl)
 	if inconcl > b.Len()/20 {
